@@ -1437,6 +1437,26 @@ impl Kernel {
         }
     }
 
+    /// stat()/access() of a path: Ok(st_mode) or errno.
+    pub fn k_stat(&self, pid: i32, path: &[u8]) -> Result<u32, i32> {
+        if path.contains(&0) {
+            return Err(libc::EINVAL);
+        }
+        let cwd = &self.proc(pid).cwd;
+        let euid = self.proc(pid).cred.euid;
+        let trailing_slash = path.last() == Some(&b'/');
+        let full = self.normalize(cwd, path)?;
+        self.check_search(&full, euid)?;
+        match self.fs.get(&full) {
+            None => Err(libc::ENOENT),
+            Some(Node::Dir { searchable }) => Ok(libc::S_IFDIR | if *searchable { 0o755 } else { 0o700 }),
+            Some(_) if trailing_slash => Err(libc::ENOTDIR),
+            Some(Node::Exe { .. }) | Some(Node::NotBinary) => Ok(libc::S_IFREG | 0o755),
+            Some(Node::NoExec) => Ok(libc::S_IFREG | 0o644),
+            Some(Node::Loop) => Err(libc::ELOOP),
+        }
+    }
+
     /// Resolve an exec path: Ok((full path, program id)) or errno.
     pub fn resolve_exec(&self, pid: i32, path: &[u8]) -> Result<(Vec<u8>, usize), i32> {
         let cwd = &self.proc(pid).cwd;
